@@ -936,10 +936,7 @@ impl Prop for C18OldSchema {
 // entry points
 
 fn workers() -> usize {
-    std::thread::available_parallelism()
-        .map(|n| n.get())
-        .unwrap_or(4)
-        .min(16)
+    crate::props_codec::workers()
 }
 
 pub fn hist_prop(id: &str) -> HistProp {
@@ -988,7 +985,7 @@ pub fn profile_for(id: &str, tier: Tier, file_backed: bool) -> Profile {
 
 pub fn run_hist_func(ctx: &Ctx, id: &str) {
     let prop = hist_prop(id);
-    let n = ctx.tier.pick(3000u64, 200_000u64);
+    let n = ctx.tier.pick(16_000u64, 400_000u64);
     // 3/4 in memory, 1/4 file backed with reopen (restart) steps
     run_prop(ctx, &prop, || history_strategy(profile_for(id, ctx.tier, false)), n * 3 / 4, workers());
     run_prop(ctx, &prop, || history_strategy(profile_for(id, ctx.tier, true)), n / 4, workers());
@@ -1007,13 +1004,13 @@ pub fn replay(id: &str, sub: &str, case: &serde_json::Value) -> Option<Result<Ou
 }
 
 pub fn run_c18_func(ctx: &Ctx) {
-    let n = ctx.tier.pick(1500u64, 60_000u64);
+    let n = ctx.tier.pick(6000u64, 100_000u64);
     run_prop(ctx, &C18Reopen, || history_strategy(profile_for("C18", ctx.tier, true)), n, workers());
-    let n2 = ctx.tier.pick(300u64, 20_000u64);
+    let n2 = ctx.tier.pick(1500u64, 30_000u64);
     run_prop(ctx, &C18OldSchema, || olddb_strategy(ctx.tier.pick(40, 200)), n2, workers());
 }
 
 pub fn run_c20_func(ctx: &Ctx) {
-    let n = ctx.tier.pick(3000u64, 200_000u64);
+    let n = ctx.tier.pick(16_000u64, 400_000u64);
     run_prop(ctx, &C20Prop, || history_strategy(profile_for("C20", ctx.tier, false)), n, workers());
 }
